@@ -3,8 +3,8 @@
 import pure_props
 
 PROP = "C17"
-LEAN_MODULES = ["PamsProps.C17"]
-NAMESPACES = ["Pams.C17"]
+LEAN_MODULES = ["PamsProps.C17", "PamsProps.SrcIndex"]
+NAMESPACES = ["Pams.C17", "Pams.C17"]
 DRIVERS = ["Pure"]
 TRUSTED = [
     "theorems are over ordered fields; the Float instance of the same fold is compared bit-for-bit with get_index, the exact rational average within 1e-12",
